@@ -46,6 +46,16 @@ def main(argv):
             pass
     os.environ["TZ"] = tz
     time.tzset()
+    # ... and so is the logging configuration: every fourth shard runs with the library's loggers at DEBUG (as 'ofxget -vv' or an
+    # application's logging.basicConfig(level=DEBUG) would), the output discarded
+    if (os.environ.get("VF_LOGLEVEL") or ("DEBUG" if shard % 4 == 3 else "")) == "DEBUG":
+        import logging
+
+        lg = logging.getLogger("ofxtools")
+        lg.setLevel(logging.DEBUG)
+        lg.addHandler(logging.NullHandler())
+        lg.propagate = False
+        os.environ["VF_LOGLEVEL"] = "DEBUG"
     from vf.core.ctx import Ctx, format_exc
 
     replay_case = None
